@@ -24,10 +24,10 @@ import (
 )
 
 type ghost struct {
-	Admin  map[string]string            // existing factory denoms -> admin ("" = renounced)
-	Supply map[string]*big.Int          // expected supply delta per denom (all denoms of interest)
+	Admin  map[string]string              // existing factory denoms -> admin ("" = renounced)
+	Supply map[string]*big.Int            // expected supply delta per denom (all denoms of interest)
 	Bal    map[string]map[string]*big.Int // actor -> denom -> expected balance delta
-	Disp   map[string]string            // denom -> metadata display set via SetDenomMetadata
+	Disp   map[string]string              // denom -> metadata display set via SetDenomMetadata
 }
 
 func (g *ghost) Clone() explore.Ghost {
@@ -125,13 +125,13 @@ func run(r *report.Run, shard, nshards int, replayFile string) {
 		"amount alphabet {5 mint, 3 burn}; larger amounts exercise the same code path (sdk.Int arithmetic in x/bank)",
 	}
 	spec := explore.Spec{
-		Name:      "tokenfactory",
-		Init:      []*explore.Node{{Ctx: w.Root, Ghost: &ghost{Admin: map[string]string{}, Supply: map[string]*big.Int{}, Bal: map[string]map[string]*big.Int{}, Disp: map[string]string{}}}},
-		Ops:       e.ops,
-		Hash:      func(n *explore.Node) string { return n.Ghost.Key() + "|" + w.StoreDigest(n.Ctx, "tokenfactory") },
-		Invariant: e.invariant,
-		MaxDepth:  4,
-		Deadline:  r.Deadline(150*time.Second, 25*time.Minute),
+		Name:       "tokenfactory",
+		Init:       []*explore.Node{{Ctx: w.Root, Ghost: &ghost{Admin: map[string]string{}, Supply: map[string]*big.Int{}, Bal: map[string]map[string]*big.Int{}, Disp: map[string]string{}}}},
+		Ops:        e.ops,
+		Hash:       func(n *explore.Node) string { return n.Ghost.Key() + "|" + w.StoreDigest(n.Ctx, "tokenfactory") },
+		Invariant:  e.invariant,
+		MaxDepth:   4,
+		Deadline:   r.Deadline(150*time.Second, 25*time.Minute),
 		ShardDepth: 2, Shard: shard, NShards: nshards,
 	}
 	if r.Thorough() {
